@@ -118,9 +118,9 @@ def run(ctx):
     for fid, mods in KNOWN.items():
         ctx.coverage[f"witness_{fid}_varies"] = witness_varies(mods)
     quick = ctx.tier == "quick"
-    n, procs = (12, 3) if quick else (50, 4)
+    n, procs = (20, 3) if quick else (50, 4)
     judge(ctx, [(m, ["corpus:" + fid]) for m, fid in CORPUS], 40 if quick else 100, procs, "C14 corpus")
-    programs = [mg.c14_program(ctx.rng) for _ in range(220 if quick else 2000)]
+    programs = [mg.c14_program(ctx.rng) for _ in range(300 if quick else 2000)]
     # module graphs of C15's fragment that are accepted (several modules, every visiting order matters)
     graphs = list(mg.family_e())
     edges, nsets, nflags = mg.family_d_space()
@@ -130,8 +130,11 @@ def run(ctx):
             eset |= 1 << ctx.rng.randrange(len(edges))
         graphs.append(mg.family_d_graph(ctx.rng, eset, 15))
     programs += [(g.sources(), ["modgraph:" + g.family]) for g in graphs]
-    for i in range(0, len(programs), 400):
-        judge(ctx, programs[i:i + 400], n, procs, "C14")
+    for i in range(0, len(programs), 200):
+        if len(ctx.violations) >= 5:
+            ctx.note("stopped early: five violations reported")
+            break
+        judge(ctx, programs[i:i + 200], n, procs, "C14")
     # the fixed mangling scheme of the model is the scheme of the code: compare on the names the compiler emits
     ctx.coverage["programs"] = len(programs) + len(CORPUS)
     ctx.coverage["repetitions_per_program"] = n * procs
